@@ -150,6 +150,8 @@ def run_sharded(cases, mode, side, nshards=None, hx=None, toy=False, timeout=300
                 if m is None and mode.startswith("fault:"):
                     m = ["--fault", mode.split(":")[1]]
                 cmd = [DRIVER] + (["--toy"] if toy else ["--oracle", f"{hx or HX} hashd"]) + m + [f]
+                # the extracted functions recurse on lists of bytes: megabyte contents need a deep stack
+                cmd = ["sh", "-c", 'ulimit -s unlimited 2>/dev/null || ulimit -s 1000000 2>/dev/null; exec "$@"', "sh"] + cmd
             p = subprocess.run(cmd, stdout=subprocess.PIPE, stderr=subprocess.PIPE, env=env, timeout=timeout, text=True, errors="replace")
             if p.returncode != 0:
                 return p.stdout + f"\nX runner-exit={p.returncode} {p.stderr[-500:]}\n"
